@@ -209,9 +209,12 @@ FaultTags(op) ==
 \* at the mercy of the other threads (a shared salt or phrase buffer ...), so its own property is gone as well
 GlobalWriteTags(op) ==
     CASE op = "keygen" -> {"C04"}
-      [] op = "encode" -> {"C03"}
-      [] op \in {"decode", "decodex"} -> {"C09"}
+      [] op = "encode" -> {"C03", "C01", "C17"}
+      [] op \in {"decode", "decodex"} -> {"C09", "C01", "C08", "C02", "C05"}
       [] op = "crypt" -> {"C12"}
+      [] op \in {"load", "store"} -> {"C06"}
+      [] op = "create" -> {"C18", "C11", "C10"}
+      [] op = "free" -> {"C15", "C16"}
       [] OTHER -> {}
 
 \* observers of the concurrent runs: a store into write-protected library data, a ThreadSanitizer report
